@@ -158,11 +158,24 @@ theorem C20_raise_first (sub : Nat → Nat → Bool) (only : Nat) (aws : List Aw
     raiseFirst sub only aws ord = (spec sub only aws).head? := by
   unfold raiseFirst; rw [C20_exact_in_input_order _ _ _ _ hperm]
 
+/-- **Only what was raised is reported.**  What an awaitable *returns* — be it an exception object — has no
+influence on what `gather_excs` yields or `raise_first_exc` raises: two lists of awaitables with the same
+delays and the same raised classes give the same result whatever they return. -/
+theorem C20_returned_not_reported (sub : Nat → Nat → Bool) (only : Nat) (aws aws' : List Aw)
+    (h : aws.map (·.exc) = aws'.map (·.exc)) :
+    gatherExcs sub only aws (order aws) = gatherExcs sub only aws' (order aws') ∧
+    raiseFirst sub only aws (order aws) = raiseFirst sub only aws' (order aws') := by
+  have := C20_independent_of_timing sub only aws aws' h
+  exact ⟨this, by unfold raiseFirst; rw [this]⟩
+
+example : gatherExcs (fun c d => c == d) 3 [⟨1, none, some 3⟩, ⟨2, some 3, none⟩] (order [⟨1, none, some 3⟩, ⟨2, some 3, none⟩])
+    = [(1, 3)] := by decide
+
 /-! ### Non-vacuity: finishing order is the reverse of input order; subclass filter. -/
 private def demoSub : Nat → Nat → Bool := fun c d => c == d || d == 0 || (c == 3 && d == 2)
 
 example :
-    let aws := [⟨30, some 3⟩, ⟨10, none⟩, ⟨20, some 4⟩, ⟨0, some 2⟩]
+    let aws : List Aw := [{ delay := 30, exc := some 3 }, { delay := 10, exc := none, ret := some 2 }, { delay := 20, exc := some 4 }, { delay := 0, exc := some 2 }]
     order aws = [3, 1, 2, 0] ∧
     gatherExcs demoSub 2 aws (order aws) = [(0, 3), (3, 2)] ∧
     gatherExcs demoSub 0 aws (order aws) = [(0, 3), (2, 4), (3, 2)] ∧
